@@ -200,6 +200,12 @@ func (c *Ctx) chunkSources(fn *ssa.Function, idParam *ssa.Parameter, depth int) 
 			}
 			call, idx := callOf(l)
 			if call == nil || idx != 0 {
+				// request.wait() written out: the result field of the in-flight request, read after the
+				// receive from its done channel (C12.publish-before-close checks that order)
+				if ld, ok := l.(*ssa.UnOp); ok && isResultLoad(ld) {
+					out = append(out, chunkSource{"wait", "result of the in-flight request for the same id", true, r.Pos()})
+					continue
+				}
 				out = append(out, chunkSource{"unknown", fmt.Sprintf("chunk of unknown origin %s", l), false, r.Pos()})
 				continue
 			}
